@@ -3,6 +3,7 @@
 -/
 import SV.LRU.Proofs
 import SV.GenProofs.LRU
+import SV.LRU.RefSpec
 namespace SV.Props.C15
 open SV SV.LRU
 
@@ -65,5 +66,41 @@ theorem legacy_F11 : ∃ (c : Cap) (k v : Bytes) (size : Int) (e : Entry),
 /-! ### tie by translation: the source's own leaf logic (regenerated into SV/Generated/Funcs.lean on every run) IS the model's -/
 theorem source_eviction_test_is_the_models (c : Cap) :
     c.shouldEvict = Gen.lruShouldEvict c.entries.length c.cap c.bytes c.maxBytes := GenProofs.lruShouldEvict_eq c
+
+/-! ### whole histories against an INDEPENDENT reference LRU (SV.LRU.RefSpec: recency list least→most recent; a write removes the
+    key, appends it as most recent and trims least-recent entries while over the item / byte capacity and more than one
+    entry remains; Get refreshes, Peek/Has do not) -/
+
+/-- the size-bounded LRU: for EVERY history of Put / HasOrAdd / Get / Peek / Has / Remove / Clear the outputs (flags, values) and
+    the observations (Keys in order, values, SizeInBytesContained, Len) equal the reference's at every step -/
+theorem sized_lru_refines_reference (cap : Nat) (maxBytes : Int) (ops : List LOp) :
+    runTrace Cap.stepL Cap.obs (Cap.init cap maxBytes) ops
+      = runTrace Ref.step Ref.obs (Ref.init cap (some maxBytes)) ops ∧
+    (runFinal Cap.stepL (Cap.init cap maxBytes) ops).toRef = runFinal Ref.step (Ref.init cap (some maxBytes)) ops ∧
+    CapInv (runFinal Cap.stepL (Cap.init cap maxBytes) ops) := cap_refines_ref cap maxBytes ops
+/-- the plain LRU (hashicorp) against the same reference without a byte bound -/
+theorem plain_lru_refines_reference (cap : Nat) (hc : 1 ≤ cap) (ops : List LOp) :
+    runTrace Simple.stepL Simple.obs ⟨cap, []⟩ ops = runTrace Ref.step Ref.obs (Ref.init cap none) ops ∧
+    (runFinal Simple.stepL ⟨cap, []⟩ ops).toRef = runFinal Ref.step (Ref.init cap none) ops ∧
+    SimpleInv (runFinal Simple.stepL ⟨cap, []⟩ ops) := simple_refines_ref cap hc ops
+/-- the reference, in the property's words: the entry just written always stays … -/
+theorem reference_never_evicts_just_written (r : Ref) (k v : Bytes) (size : Int) (h : r.rejects size = false) :
+    (r.put k v size).1.items.getLast? = some ⟨k, v, r.stored size⟩ ∧
+    (r.put k v size).1.keys.getLast? = some k ∧
+    (r.put k v size).1.has k = true ∧ (r.put k v size).1.peek k = some v := ref_never_evicts_just_written r k v size h
+/-- … what is dropped is a prefix of the least→most recent order, no more than needed, and the flag says whether anything was dropped … -/
+theorem reference_evicts_least_recent_first (r : Ref) (k v : Bytes) (size : Int) (h : r.rejects size = false) :
+    ∃ dropped kept, r.without k = dropped ++ kept ∧
+      (r.put k v size).1.items = kept ++ [⟨k, v, r.stored size⟩] ∧
+      (r.put k v size).2 = !dropped.isEmpty ∧
+      (∀ d e, dropped = d ++ [e] → Ref.exceeds r.cap r.maxBytes (e :: (r.put k v size).1.items) = true) :=
+  ref_evicts_least_recent_first r k v size h
+/-- … flags are truthful and SizeInBytesContained is the sum of the resident sizes -/
+theorem reference_flags_truthful (r : Ref) (k v : Bytes) (size : Int) (h : r.WF) :
+    ((r.put k v size).2 = true ↔ ∃ e ∈ r.items, e.key ≠ k ∧ (r.put k v size).1.has e.key = false) ∧
+    ((r.hasOrAdd k v size).2.1 = r.has k) ∧
+    ((r.hasOrAdd k v size).2.2 = true ↔ (r.has k = false ∧ (r.hasOrAdd k v size).1.has k = true)) ∧
+    ((r.hasOrAdd k v size).2.2 = false → (r.hasOrAdd k v size).1 = r) := ref_flags_truthful r k v size h
+theorem reference_bytes_is_sum (r : Ref) : r.bytes = (r.items.map (·.size)).sum := ref_bytes_is_sum r
 
 end SV.Props.C15
